@@ -111,6 +111,12 @@ func buildCorpus(tier string) {
 		e.zoneDep = strings.Contains(e.Text, "date(") || strings.Contains(e.Text, "toDay") || strings.Contains(e.Text, "now(")
 		corpus = append(corpus, e)
 	}
+	// every text of the lexical / syntax error collection: which diagnostic a text gets
+	// must not depend on which other texts failed before it
+	for _, t := range append(append([]string{}, brokenTexts...), badUnicodeTexts...) {
+		corpus = append(corpus, corpusEntry{Text: t, Spec: genDataSpec(s)})
+	}
+	k = len(corpus)
 	// 2. the baseline: every process parses and evaluates the corpus in its own
 	// order (derived from its chunk), so that a result which depends on what was
 	// parsed or evaluated before it shows up as a disagreement between processes
